@@ -96,9 +96,34 @@ class Host(object):
         elif mod == 'builtin':
             base = {'len': 'builtin_length_array_host', 'probe': 'builtin_probe_host', 'probeln': 'builtin_probeln_host',
                     'split_head': 'builtin_split_head_host', 'split_tail': 'builtin_split_tail_host'}.get(name)
-            if base is None:
+            import re as _re
+            ma = _re.fullmatch(r'(split_head|split_tail)\$arity(\d+)', name)
+            if base is None and ma:
+                # registered by the runtime as a closure `move |caller, array, dst_ptr| builtin_split_*_arity_host(caller, array, dst_ptr, arity)`
+                r = it.call('builtin_%s_arity_host' % ma.group(1), margs + [Sc('usize', int(ma.group(2)))], None)
+            elif base is None and _re.fullmatch(r'(prepend|append)\$arity(\d+)', name):
+                # registered with Linker::func_new: the host function sees wasmtime `Val`s (I32 = 0, I64 = 1, F32 = 2, F64 = 3 as
+                # bit patterns) and writes its result into a `&mut [Val]`
+                mb = _re.fullmatch(r'(prepend|append)\$arity(\d+)', name)
+                vals = []
+                for a, t in zip(args, f.params):
+                    rv = self.to_rust(a, t)
+                    if t == 'f64':
+                        bits = it.smt.fp_to_bits(rv.v) if rv.t == 'f64' else rv.v
+                        vals.append(Agg('wasmtime::Val', 3, [Sc('u64', bits)]))
+                    elif t == 'i64':
+                        vals.append(Agg('wasmtime::Val', 1, [rv]))
+                    else:
+                        vals.append(Agg('wasmtime::Val', 0, [rv]))
+                results = [Agg('wasmtime::Val', 1, [Sc('i64', 0)]) for _ in f.results]
+                it.call('builtin_%s_arity_host' % mb.group(1), [caller, Slice(vals, 0, len(vals)), Slice(results, 0, len(results)), Sc('usize', int(mb.group(2)))], None)
+                if not f.results:
+                    return []
+                r = results[0].fields[0]
+            elif base is None:
                 raise Unsupported('wasm import builtin.%s' % name)
-            r = it.call(base, margs, None)
+            else:
+                r = it.call(base, margs, None)
         elif mod == 'plugin':
             r = self.call_plugin(name, margs, f)
         else:
